@@ -118,6 +118,71 @@ def defining_configuration(ctx):
         raise AnalysisError(f"C05.R11: only {n} evaluations at the defining configuration found")
 
 
+def signed_velocity_jacobian(ctx, rule="C05.R14"):
+    """W_g is the transpose of d g_dot / d u: replacing in g_dot every velocity (v_J1, v_J2, Omega1, Omega2) by its Jacobian (J_J1, J_J2, J_R1,
+    J_R2) gives the columns of W_g TERM BY TERM, WITH SIGN.  Both sides are expanded into signed monomials (K12; locals inlined, sums
+    distributed); the scalar triple products are brought to one orientation - cross3(a, b) @ c, a @ ax2skew(b) @ c and (a x b) . c are all
+    det[a, b, c], so after dropping the skew markers the sign is the parity of the permutation that sorts the three factors.  K10 (R6) sees
+    the same monomials on both sides when only the sign of the moment-arm term `(e x r) . J_R1` is flipped; this rule does not.
+    Scope: the translational rows of the projected joints (Prismatic, Cylindrical, Planarizer), which are written per constrained axis."""
+    import re
+    from ..signedterms import Expander
+    rep = ctx.rep
+    cls = ctx.repo.get(BASE, "ProjectedPositionOrientationBase")
+    fg = ctx.repo.get(BASE, "ProjectedPositionOrientationBase.g_dot")
+    fw = ctx.repo.get(BASE, "ProjectedPositionOrientationBase.W_g")
+    VEL = {"v_J1": "J_J1", "v_J2": "J_J2", "Omega1": "J_R1", "Omega2": "J_R2"}
+
+    def atom(a):
+        a = re.sub(r"^self\.(\w+)\(.*\)$", r"\1", a)
+        return VEL.get(a, a)
+
+    def canon(terms, want_body):
+        out = {}
+        for sgn, f in terms:
+            flat = []
+            for x in f:
+                m_ = re.match(r"^skew\((.*)\)$", x)
+                flat.append(atom(m_.group(1) if m_ else x))
+            jac = [x for x in flat if x in VEL.values()]
+            if len(jac) != 1 or not jac[0].endswith(want_body):
+                continue
+            order = sorted(range(len(flat)), key=lambda i: flat[i])
+            if len(flat) == 3:
+                inv = sum(1 for i in range(3) for j in range(i + 1, 3) if order[i] > order[j])
+                sgn = sgn * (-1 if inv % 2 else 1)
+            key = tuple(flat[i] for i in order)
+            out[key] = out.get(key, 0) + sgn
+        return {k: v for k, v in out.items() if v != 0}
+
+    def first_store(fn, pred):
+        for st in ast.walk(fn):
+            if isinstance(st, ast.Assign) and len(st.targets) == 1 and isinstance(st.targets[0], ast.Subscript) and pred(st.targets[0]):
+                return st
+        return None
+    sg = first_store(fg, lambda t: norm_src(t.value) == "g_dot" and norm_src(t.slice) == "i")
+    s1 = first_store(fw, lambda t: norm_src(t.value) == "W_g" and norm_src(t.slice).replace(" ", "").strip("()") == ":nu1,i")
+    s2 = first_store(fw, lambda t: norm_src(t.value) == "W_g" and norm_src(t.slice).replace(" ", "").strip("()") == "nu1:,i")
+    if sg is None or s1 is None or s2 is None:
+        rep.ok(rule, f"{BASE}:ProjectedPositionOrientationBase.W_g", "translational rows are not written per axis in the form the analysis reads (no verdict)", verdict="unknown", trivial=True)
+        return
+    tg = Expander(fg).expand(sg.value)
+    for body, st in (("1", s1), ("2", s2)):
+        C = f"{BASE}:ProjectedPositionOrientationBase.W_g"
+        tw = Expander(fw).expand(st.value)
+        if tg is None or tw is None:
+            rep.ok(rule, C, f"body-{body} block: expression not expandable (no verdict)", verdict="unknown", trivial=True)
+            continue
+        a, b = canon(tg, body), canon(tw, body)
+        if a == b and a:
+            rep.ok(rule, C, f"body-{body} block of W_g equals d g_dot / d u term by term with sign ({len(a)} monomials)")
+        else:
+            diff = sorted(set(a) | set(b), key=str)
+            show = "; ".join(f"{' . '.join(k)}: g_dot {a.get(k, 0):+d}, W_g {b.get(k, 0):+d}" for k in diff if a.get(k, 0) != b.get(k, 0))
+            rep.bad(rule, C, st, f"the body-{body} block of the translational force directions is not the transpose of d g_dot / d u: {show[:300]} - the moment of the constraint force "
+                    "about the joint point of body 1 enters with the wrong sign as soon as the joint points are apart (body 2 has slid along a free direction)", f"{BASE}:{st.lineno}")
+
+
 def run(ctx):
     rep = ctx.rep
     rep.rule("C05.R12", "dependence monotonicity (K13) over every primal/derivative pair of K5: a stated derivative reads no datum its primal does not read", 15)
@@ -137,6 +202,8 @@ def run(ctx):
     rep.rule("C05.R8", "relative polarity of body-2 vs body-1 terms agrees between the constraint and its derivatives (K9)", 25)
     rep.rule("C05.R9", "all point-protocol calls of one body's joint glue name the same material point (xi, B_r_CP)", 4)
     protocol.point_argument_agreement(ctx, "C05.R9", [("auxiliary_functions", BASE, ctx.repo.get(BASE, "auxiliary_functions"))])
+    rep.rule("C05.R14", "projected joints: W_g equals the transpose of d g_dot / d u term by term WITH SIGN (signed monomials, triple products in one orientation)", 2)
+    signed_velocity_jacobian(ctx)
     rep.rule("C05.R6", "Leibniz image of the primal's factor monomials equals the derivative routine's monomials (K10)", 18)
     model = ctx.model
     wanted = {"g", "g_q", "g_dot", "g_dot_q", "g_ddot", "W_g", "Wla_g_q", "g_dot_u"}
@@ -332,4 +399,14 @@ NEUTRAL = [
          old="        g_q[:3, :nq1] = -self.r_OJ1_q1(t, q)\n        g_q[:3, nq1:] = self.r_OJ2_q2(t, q)", new="        g_q[:3, :nq1] = -1.0 * self.r_OJ1_q1(t, q)\n        g_q[:3, nq1:] = 1.0 * self.r_OJ2_q2(t, q)"),
     dict(id="c05-n1", canary=True, what="einsum indices renamed consistently in A_IJ2_q2", file=PB,
          old='        "ijk,jl->ilk", object.subsystem2.A_IB_q(t, q[nq1:], object.xi2), A_K2B0', new='        "abc,bd->adc", object.subsystem2.A_IB_q(t, q[nq1:], object.xi2), A_K2B0'),
+]
+MUTANTS += [
+    dict(id="c05-r14-seed", canary=True, what="[seeded by sub-agent] projected joints: body-1 Jacobian hoisted as J_J1 + skew(r) J_R1 (moment arm with the wrong sign)", file=BASE,
+         old="                W_g[:nu1, i] = (\n                    -A_IJ1[:, ax] @ J_J1 + cross3(A_IJ1[:, ax], r_J1J2) @ J_R1\n                )\n",
+         new="                W_g[:nu1, i] = -A_IJ1[:, ax] @ (J_J1 + ax2skew(r_J1J2) @ J_R1)\n", expect="C05.R14"),
+]
+NEUTRAL += [
+    dict(id="c05-n-r14", canary=True, what="projected joints: body-1 Jacobian hoisted as J_J1 - skew(r) J_R1 (correct)", file=BASE,
+         old="                W_g[:nu1, i] = (\n                    -A_IJ1[:, ax] @ J_J1 + cross3(A_IJ1[:, ax], r_J1J2) @ J_R1\n                )\n",
+         new="                W_g[:nu1, i] = -A_IJ1[:, ax] @ (J_J1 - ax2skew(r_J1J2) @ J_R1)\n"),
 ]
